@@ -337,8 +337,21 @@ def p3(e: Engine, rep: Report):
             key = n.ast.targets[0].slice
             kv = key.value.lower() if isinstance(key, ast.Constant) and \
                 isinstance(key.value, str) else None
+            kt = None
+            if kv is None and isinstance(key, ast.Attribute) and \
+                    isinstance(key.value, ast.Name) and \
+                    key.value.id == 'self':
+                # the header name is a class constant of the policy
+                for k2 in e.p.mro(ctx.self_cls):
+                    cc = common.class_constants(e, k2)
+                    if key.attr in cc:
+                        if isinstance(cc[key.attr], str):
+                            kv = cc[key.attr].lower()
+                            kt = canon(key, n.frame)
+                        break
             st = fx.at(n) or frozenset()
-            ok = any(kv is not None and kv in k.lower() and
+            ok = any(kv is not None and (
+                kv in k.lower() or (kt is not None and kt in k)) and
                      'headers' in k and (
                          (not p and ' in ' in k) or
                          (p and k.endswith(' is None') and
